@@ -216,6 +216,11 @@ class Backward:
                 x, y = self._read(n.args[0]), self._read(n.args[1])
                 if x is not None and y is not None:
                     return Inv("mag", 1.0, (x, y))
+            if fn == "copysign" and len(n.args) == 2:
+                # a signed magnitude: |.| carrying the sign of one input key
+                m_, sk = self.ev(n.args[0]), self._read(n.args[1])
+                if m_.kind == "mag" and sk is not None:
+                    return Inv("smag", m_.scale, m_.keys + (sk,))
             if fn in ("arctan2", "atan2") and len(n.args) == 2:
                 u, v = self._read(n.args[0]), self._read(n.args[1])
                 if u is not None and v is not None:
@@ -421,7 +426,11 @@ def run(ctx) -> None:
             continue  # reported by R-KEYSETS
         (ai, ast_), (pi_, pst) = a_inv, p_inv
         problems = []
-        if ai.kind != "mag" or set(ai.keys) != set(keys):
+        if ai.kind == "smag":
+            problems.append(f"{amp} is rebuilt as a magnitude carrying the sign of {ai.keys[-1]} "
+                            f"(`{norm_text(ast_.value)[:60]}`) while {ph} is a full-quadrant arctan2: the sign is "
+                            f"counted twice, so for {ai.keys[-1]} < 0 the round trip returns the negated components")
+        elif ai.kind != "mag" or set(ai.keys) != set(keys):
             problems.append(f"{amp} is rebuilt by `{norm_text(ast_.value)[:60]}`, not by sigma*sqrt of the squares of "
                             f"{sorted(keys)}")
         elif abs(abs(ai.scale) - 1.0) > TOL:
